@@ -11,7 +11,7 @@ CONSTANTS
   Fills = {1}
   AbsWidths = {2}
   EquOffs = {}
-  Orgs = {0, 250}
+  Orgs = {250}
   Fixed = TRUE
   ThrowErrors = FALSE
   ThrowMaxPass = 3
